@@ -217,6 +217,16 @@ def parse_items(toks, lo, hi):
             i += 1
             if i < hi and is_p(toks[i], '('):
                 i = match_close(toks, i) + 1
+        # extern crate x [as y];
+        if i + 1 < hi and is_id(toks[i], 'extern') and is_id(toks[i + 1], 'crate'):
+            j = i
+            while not is_p(toks[j], ';'):
+                j += 1
+            it = Item('extern_crate', toks[i + 2].text, toks, first, j)
+            it.kw = i
+            items.append(it)
+            i = j + 1
+            continue
         # qualifiers
         while i < hi and is_id(toks[i]) and toks[i].text in QUALS:
             if toks[i].text == 'const' and not (i + 1 < hi and is_id(toks[i + 1]) and toks[i + 1].text in ('fn', 'unsafe', 'async', 'extern')):
